@@ -95,6 +95,27 @@ claim("C18", "other",
       "abstract interpretation with an output-buffer domain over typed HIR + expanded-AST format templates",
       "DESIGN.md 5.C18")
 
+claim("C10", "other",
+      "Abstract interpretation of the code as written (not of its canonical form) in a finiteness/sign domain with exact constants and an interval for the power exponent: at every enumerated special point (powi at 0 for n = 0,1,2 and integers >= 3; powf at 0 for n = 0,1,2, integers >= 3 and non-integers above the order of the type; atan2 on either axis away from the origin; sph_j0/1/2, bessel_j0/1/2, exp_m1, ln_1p at 0) with arbitrary finite derivative parts, every part of the result is finite on every path for all 8 types (no 0*inf, 0/0, inf-inf). Equality with the mathematical value follows from C01/C09/C15. Known findings: powf at 0 with a non-integer exponent in (order, 3). Immediate floating-point neighbours of the points are NOT decided.",
+      "trusted: rustc type checker and name resolution, the exporter, the interpreter, the transfer functions of ndvlib/domb.py; assumes finite*finite and finite+finite stay finite; Horner-at-zero summary for polevl/p1evl",
+      "abstract interpretation with a finiteness/sign lattice (+ exponent intervals) over typed HIR",
+      "DESIGN.md 5.C10")
+claim("C12", "other",
+      "NARROW structural claim (linalg configuration): the singular-pivot guard of LU::new tree-dominates every division by the pivot of the same iteration, the guarded quantity is the column maximum of |a[(k,i)]|.re() over the remaining rows with its row recorded, LU values can only be produced by LU::new; branch conditions use real parts, counters, sizes or the scalar's own comparison items; row swap / permutation swap / parity counter are updated together, the determinant is negated exactly for odd parity, the eigenvalue sort swaps eigenvector columns with their eigenvalues, ScalarOperand covers all 8 types. NOT decided (declared out of reach): A x = b, A A^-1 = I, A V = V diag(lambda), Jacobi's formula, Hellmann-Feynman, convergence, tolerances, nalgebra's decompositions.",
+      "trusted: rustc type checker and name resolution, the exporter, structural walkers; no loop invariants of the numerical algorithms are established",
+      "tree-dominance and pairing rules on structured typed HIR",
+      "DESIGN.md 5.C12")
+claim("C14", "other",
+      "NARROW claim: (1) parity — for each region (tiny, |x|<=5, |x|>5) the canonical real form computed for a negative argument, mirrored, equals +-the form for the positive argument (J0, J2 even, J1 odd; all guards decided by the real part; coefficient tables opaque functions of x^2); (2) interface purity — bessel.rs touches its operand only through DualNum/operator items, hence derivative parts are those of the computed real function; (3) small-argument series — each polynomial arm equals the Maclaurin polynomial of J_n up to its own degree and is adequate for derivative orders 0..4 at the arm's threshold (exact rational bound vs 2^-50). NOT decided: accuracy of the rational approximations for |x|<=5 and of the asymptotic form beyond, continuity at |x|=5, the coefficient tables.",
+      "trusted: rustc type checker and name resolution, the exporter, ndvlib/poly.py, Maclaurin tables computed in ndvlib/series.py",
+      "real-function abstract interpretation per region + parity check by substitution + exact series bounds",
+      "DESIGN.md 5.C14")
+claim("C15", "proof",
+      "Static proof over the reals for the dual impl (as instantiated for the 8 types) and both float impls: the closed-form arm is the definition of j0, j1, j2; the small-argument arm is the Maclaurin truncation and is adequate (exact rational bound <= 2^-50 for |x| < eps) for every derivative order the type carries, and up to total order 4 for nested types; the switch is symmetric in the sign of the argument and both arms have the parity of the function; dual and float siblings agree arm by arm; in dual arithmetic both arms are the lifting of their real function (all parts, presence patterns). Rounding in the closed form near the switch is NOT decided.",
+      TB + "; Maclaurin tables computed in ndvlib/series.py",
+      "real-function and canonical-form abstract interpretation + exact Maclaurin comparison",
+      "DESIGN.md 5.C15")
+
 ALL = ["C%02d" % i for i in range(1, 19)]
 for pid in ALL:
     if pid not in CHECKS:
